@@ -67,6 +67,16 @@ def native_check(cfg, env=None, seed=0, warm=False):
         o1 = rbm.gibbs_steps(2, v1, overwrite=ow)
         if tuple(o1.shape) != (cfg["nv"],) or not bool(((o1 == 0) | (o1 == 1)).all()):
             fails.append(("gibbs_steps on a 1-D start state returns shape %s (expected (%d,)) or non-binary values" % (tuple(o1.shape), cfg["nv"]), None))
+    # overwrite=False never hands the caller's tensor (or memory shared with it) back, for any number of steps incl. 0:
+    # continuing the returned chain in place must not reach the start state
+    for k0 in (0, 1):
+        x0 = torch.tensor(rng.integers(0, 2, size=(6, cfg["nv"])), dtype=torch.double)
+        keep0 = x0.clone()
+        r0 = rbm.gibbs_steps(k0, x0, overwrite=False)
+        rbm.gibbs_steps(3, r0, overwrite=True)
+        r0.fill_(0.5)
+        if not torch.equal(x0, keep0):
+            fails.append(("gibbs_steps(%d, x, overwrite=False) returned x itself / memory shared with x: editing the result changed the start state" % k0, None))
     V = torch.tensor(vs, dtype=torch.double)
     pi = T.sum(1)
     # conditionals
